@@ -106,7 +106,19 @@ fn worker(fd: Arc<File>, shared: Arc<Shared>) {
         assert!(matches!(&*s_guard, State::Started | State::Done(_)));
         drop(s_guard);
 
+        #[cfg(feature = "verif-hooks")]
+        let verif_res = crate::verif::before(crate::verif::IoOp::Fsync {
+            fd: std::os::fd::AsRawFd::as_raw_fd(&*fd),
+        });
         let sync_result = fd.sync_all();
+        #[cfg(feature = "verif-hooks")]
+        let sync_result = match verif_res {
+            Err(e) => Err(e),
+            Ok(token) => {
+                crate::verif::after(token, sync_result.is_ok());
+                sync_result
+            }
+        };
 
         let mut s_guard = shared.s.lock();
         if matches!(&*s_guard, State::HandleDead) {
